@@ -8,7 +8,8 @@
    model_allocator_fossil_lp_collect / _checkpoint_restore with the distances GVT - checkpoint - rollback target swept)
    and by the simulation runs with GVT periods down to 0. *)
 From Coq Require Import List Arith NArith.
-From RS Require Import Buddy.BuddyTree Buddy.Alloc Buddy.AllocProofs.
+From Coq Require Import ZArith Sorted.
+From RS Require Import Buddy.BuddyTree Buddy.Alloc Buddy.AllocProofs Heap.HeapTime TW.App TW.Worker TW.WorkerProofs TW.WorkerSafety.
 
 Theorem C13_fossil_keeps_base : forall s tgt s' base, fossil_collect s tgt = Some (s', base) ->
   exists i g, nth_error (m_logs s) i = Some g /\ base = g_ref g /\ (g_ref g <= tgt)%N /\
@@ -28,6 +29,31 @@ Theorem C13_restore_uses_newest_checkpoint_not_after : forall B H AHDR s ref s' 
     m_logs s' = firstn (S i) (m_logs s).
 Proof. exact restore_picks_newest. Qed.
 
+(* process.c / fossil.c level, on the executable worker model tied op by op to the code (TW/Worker.v), for EVERY program,
+   checkpoint interval and script of deliveries, late hand-backs, cancellations and GVT announcements (GVT = a lower bound of
+   everything queued or held, as drv_lp computes it):
+     safe p w  :=  all_ok2 p w  /\  (k_err w = false ->
+                     (forall m, In m (pend w) -> k_gvt w <= time of m)               -- nothing pending lies below the GVT
+                  /\ theap .. (k_heap w)                                             -- the heap is a heap for the timestamp
+                  /\ Forall lp_time (k_lps w))                                       -- histories in timestamp order, none above the bound
+   (k_err marks an execution in which the C code would index out of bounds; it is never raised in any correspondence run.) *)
+Theorem C13_nothing_pending_lies_below_the_gvt : forall (p : prog) (ck : nat) (ops : list wop),
+  safe p (fold_left (wstep p ck) ops (w_init p)).
+Proof. exact worker_safe_app. Qed.
+
+(* ... and what a fossil collection releases lies strictly below it: in a timestamp-ordered history, with the scan of
+   fossil_lp_collect (newest processed message below the GVT) and the checkpoint choice of the allocator, every processed
+   message of the released prefix has a timestamp < GVT.  Together: no message that can still arrive -- hence no rollback it
+   can cause -- reaches into what was released. *)
+Theorem C13_released_entries_lie_below_the_gvt : forall (x : lpx) (gvt : Z) past ref snap older,
+  StronglySorted N.le (ptimes (x_hist x)) ->
+  newest_below gvt (rev (x_hist x)) (length (x_hist x)) = Some past ->
+  StronglySorted decr (x_logs x) -> drop_newer (x_logs x) (past + 1) = (ref, snap) :: older ->
+  forall m, In (EProc m) (firstn ref (x_hist x)) -> (Z.of_N (tm m) < gvt)%Z.
+Proof. intros x. exact (fossil_releases_below (mkProg 1 1 0 0 0 nil nil nil) 0 (fun ev st e => app_handle_time _ ev st e) x). Qed.
+
 Print Assumptions C13_fossil_keeps_base.
+Print Assumptions C13_nothing_pending_lies_below_the_gvt.
+Print Assumptions C13_released_entries_lie_below_the_gvt.
 Print Assumptions C13_restore_after_fossil_finds_a_checkpoint.
 Print Assumptions C13_restore_uses_newest_checkpoint_not_after.
